@@ -31,6 +31,7 @@ fn main() {
             lexcheck::automaton(n(2) as i32, n(3) as usize)
         }
         "core" => coregen::run(&args[2..]),
+        "srcexpr" => coregen::run_source(),
         "subtype" => subtype::run(&args[2..]),
         _ => {
             eprintln!("usage: mvdrv serve | lexsweep .. | automaton .. | core .. | subtype ..");
